@@ -354,9 +354,15 @@ def onObs (m : Mon) (label : String) (ok : Bool) (membership : Bool) (prev : Opt
         let stuck := funded p ≥ 2 && !m.closedSeen && !p.blind.isBreaking && p.blind.isSet && !p.hasGame &&
                      (match p.gate with | some (_, ps) => ps.length > 1 | none => false) &&
                      (p.released == some false) && p.status != .closed
+        -- finding D16 is the refusal the rotation rule itself produces (a newcomer still flagged as waiting after the
+        -- flags were re-evaluated): the seat-manager model, run on the seat manager as it was before the fire, refuses too.
+        -- A refusal the rule does not produce is not D16.
+        let ruleRefuses := match p.sm with
+          | some smPre => smPre.isInit && (match (SM.rotate smPre).2 with | .ok => false | .err _ => true)
+          | none => false
         let v8 := if stuck then
             (match o.sm with
-             | some sm => if SMSpec.dealtIn sm < 2 && SMSpec.aliveN sm ≥ 2 then ["C08.next-hand-refused.newcomer-still-waiting"]
+             | some sm => if ruleRefuses && SMSpec.dealtIn sm < 2 && SMSpec.aliveN sm ≥ 2 then ["C08.next-hand-refused.newcomer-still-waiting"]
                           else ["C08.no-hand-opened-although-two-seated-in-players-have-chips"]
              | none => ["C08.no-hand-opened-although-two-seated-in-players-have-chips"])
           else []
@@ -443,9 +449,14 @@ def onObs (m : Mon) (label : String) (ok : Bool) (membership : Bool) (prev : Opt
     else (m, [])
   -- ---- while a hand runs: its list keeps denoting the same players, its blinds stay
   let vh := match m.openObs with
-    | some _ =>
+    | some oo =>
       if o.hasGame && inHandStatus o.status then
         let ids := (gidxPlayers o).filterMap (fun p => p.map (·.id))
+        -- C06: the labels published at the open stay the players' labels for the whole hand (every later snapshot)
+        (if o.cfg.rule == .default && !(o.players.all (fun q => match oo.players.find? (·.id == q.id) with
+              | some q0 => q.positions == q0.positions
+              | none => q.positions.isEmpty))
+         then ["C06.labels-changed-after-the-hand-opened"] else []) ++
         (if ids == m.openIds && ids.length == o.gidx.length then [] else ["C02.hand-entries-no-longer-denote-the-same-players"]) ++
         (if label != "fire.opened" && m.openBlind.isSome && o.gameBlind != m.openBlind && o.status != .opened
          then ["C12.hand-blinds-changed-while-the-hand-runs"] else [])
